@@ -49,9 +49,21 @@ def transform(pa, c, *, ann_map=None, shift=0.0, scale=1.0, cat_map=None):
     return out
 
 
+_DISSIMS = {}
+
+
 def make_dissim(pa, rng, kind, labels, de, alpha, beta, cat_map=None):
-    from sortedcontainers import SortedSet
+    """Deterministic in its arguments: equal arguments give the SAME object (each new dissimilarity object costs a JIT
+    compilation and memory numba never returns)."""
     labs = [cat_map[x] for x in labels] if cat_map else list(labels)
+    key = (kind, de, alpha, beta, tuple(labs))
+    if key not in _DISSIMS:
+        _DISSIMS[key] = _make_dissim(pa, kind, labs, de, alpha, beta)
+    return _DISSIMS[key]
+
+
+def _make_dissim(pa, kind, labs, de, alpha, beta):
+    from sortedcontainers import SortedSet
     if kind == "pos":
         return pa.PositionalSporadicDissimilarity(delta_empty=de)
     if kind == "comb_abs":
